@@ -34,7 +34,12 @@ def contexts(text, leaf):
         ("list", "(" + text + ", " + text + ")", T.lst(leaf, leaf)),
         ("not", "not (x eq " + text + ")", T.unop("Not", T.binop("Eq", x, leaf))),
         ("in", "x in (" + text + ",)", T.binop("In", x, T.lst(leaf))),
-    ]
+    ] + ([
+        # an identifier as a path root keeps its namespace split off; as a later path segment it is kept as written
+        ("path-root", text + "/q eq x", T.binop("Eq", T.A(leaf, "q"), x)),
+        ("path-segment", "p/" + text + " eq x", T.binop("Eq", T.A(T.I("p"), text), x)),
+        ("lambda-owner", "p/" + text + "/any()", T.lam(T.A(T.I("p"), text), "Any")),
+    ] if leaf[0] == "Identifier" else [])
 
 
 def parse(s):
@@ -292,6 +297,8 @@ def gen_identifiers():
               "x.null", "falsehood", "ink", "orb", "andy", "notary", "all_", "any1", "T", "Z", "P", "e1", "E5", "t10", "d1", "a1b2",
               "durationx", "geographyx", "ge0", "le_", "_1", "__", "a.b.c.d", "A.B"}
     names |= {"a" * 127, "a" * 128, "b" + "1" * 127, "n." + "c" * 126, "_" * 128}
+    # letters whose case folding lands on a keyword letter (long s, Kelvin sign, dotless / dotted i): still identifiers
+    names |= {"fal\u017fe", "FAL\u017fE", "Fal\u017fe", "\u017fub", "\u0131n", "d\u0131v", "\u0130n", "\u212a", "nu\u017fll", "x.fal\u017fe", "fal\u017fe.x", "\u017f"}
     # null/true/false/not are keywords wherever they stand; every other keyword only in its own syntactic position (an infix operator
     # between operands, any/all before "(", a literal prefix before a quote), so as a name it is a plain field reference
     reserved = {"null", "true", "false", "not"}
